@@ -125,6 +125,238 @@ def model (ls : List String) : List String :=
         go r.1 rest (showLine r.2 r.1 :: acc)
   go World.init ls []
 
-def judge (_ops _impl : List String) : Bool × String := (true, "ok")
+/-! ### The judge: the statement of C15 evaluated on the implementation's own observations
+
+Reference notions used (specification side, not the eviction mechanism): the POSIX semantics of
+`Quota.canonicalize` / `Quota.unlink` to say which file a recorded row denotes (`root/rel`), whether it
+exists, whether it can be unlinked, and whether it lies under the managed root; sums and comparisons
+of the observed rows. Failure reasons start with a tag `[…]` (used by KNOWN_FINDINGS matching). -/
+
+structure Obs where
+  status : String
+  inv : Option (List Row)
+  fs : FS
+
+def parseRow (s : String) : Option Row :=
+  match s.splitOn ":" with
+  | [rel, sz, ct, at_] => do
+    let sz ← sz.toInt?
+    let ct ← parseTime ct
+    let at_ ← parseTime at_
+    pure ⟨if rel = "." then [] else parsePath rel, sz, ct.toNat, at_.toNat⟩
+  | _ => none
+
+def parseNode (links : List (Path × Path)) (s : String) : Path × Node :=
+  if s.endsWith "/" then (parsePath s, .dir)
+  else if s.endsWith "@" then
+    let p := parsePath (s.dropEnd 1).toString
+    (p, .link ((links.lookup p).getD ["?unknown-target"]))
+  else (parsePath s, .file)
+
+def parseObs (links : List (Path × Path)) (l : String) : Option Obs :=
+  match l.splitOn " | " with
+  | [st, inv, fs] =>
+    let invv : Option (Option (List Row)) :=
+      if inv = "nodb" then some none
+      else if inv = "-" then some (some [])
+      else ((words inv).mapM parseRow).map some
+    let fsv : FS := if fs = "-" then [] else (words fs).map (parseNode links)
+    invv.map fun i => ⟨st, i, fsv⟩
+  | _ => none
+
+structure JSt where
+  inv : Option (List Row) := none
+  fs : FS := []
+  root : Option Path := none
+  maxSize : Option Nat := none
+  maxAge : Option Nat := none
+  poisonOk : Bool := false
+  lastEvictOk : Bool := false
+  links : List (Path × Path) := []
+
+/-- the path a row denotes, as the operating system resolves it (or the literal join) -/
+def rowPath (fs : FS) (root : Path) (r : Row) : Path := canonOrKeep fs (root ++ r.rel)
+
+def rowEscapes (fs : FS) (root : Path) (r : Row) : Bool := !isPrefix root (rowPath fs root r)
+
+/-- can the row's file be unlinked (or is it already absent)? `err` = directory, ENOTDIR, … -/
+def rowUnlink (fs : FS) (root : Path) (r : Row) : DelRes × FS := unlink fs (rowPath fs root r)
+
+def rowStuck (fs : FS) (root : Path) (r : Row) : Bool :=
+  rowEscapes fs root r || (rowUnlink fs root r).1 == .err
+
+def rowPresent (fs : FS) (root : Path) (r : Row) : Bool := (rowUnlink fs root r).1 != .notFound
+
+def sumI (l : List Row) : Int := l.foldl (fun a r => a + r.size) 0
+
+def sizesValid (l : List Row) : Bool := l.all (fun r => decide (0 ≤ r.size)) && decide (sumI l < 2 ^ 63)
+
+def fsKeys (fs : FS) : List Path := fs.map (·.1)
+
+def isSublist : List Row → List Row → Bool
+  | [], _ => true
+  | _ :: _, [] => false
+  | a :: as, b :: bs => if a = b then isSublist as bs else isSublist (a :: as) bs
+
+def sameSet (a b : List Path) : Bool := a.all (b.contains ·) && b.all (a.contains ·)
+
+/-- the judgement of one eviction pass that did not panic -/
+def judgeEvict (st : JSt) (root : Path) (I I' : List Row) (F F' : FS) : Except String Unit := do
+  -- inventory only shrinks, rows are never altered
+  if !isSublist I' I then throw "[inventory-altered] a pass changed or added rows"
+  let R := I.filter (fun r => !I'.contains r)
+  -- file system only shrinks
+  if !(fsKeys F').all (fun k => F.lookup k == F'.lookup k) then
+    throw "[disk-altered] a pass created or changed a node"
+  let D := (fsKeys F).filter (fun k => (F'.lookup k).isNone)
+  -- confinement: nothing outside the managed root disappears
+  match D.find? (fun k => !isPrefix root k) with
+  | some k => throw s!"[outside-root-deleted] {showPath k} lies outside the managed root {showPath root} and was deleted"
+  | none => pure ()
+  -- bookkeeping: exactly the files of the forgotten rows are gone, and they are gone
+  let expectD := R.filterMap (fun r => let u := rowUnlink F root r
+                                         if u.1 == .ok then (fsKeys F).find? (fun k => (u.2.lookup k).isNone) else none)
+  if !sameSet D expectD then
+    throw s!"[disk-inventory-mismatch] deleted files {D.map showPath} ≠ files of the forgotten rows {expectD.map showPath}"
+  match R.find? (fun r => rowPresent F' root r) with
+  | some r => throw s!"[forgotten-row-still-on-disk] {showRel r.rel}"
+  | none => pure ()
+  if !sizesValid I then pure () else
+  let total := (sumI I).toNat
+  let cutoff : Option Nat := st.maxAge.map (vnow - ·)
+  let aged (r : Row) : Bool := match cutoff with | some c => decide (r.atime < c) | none => false
+  -- age
+  match I'.find? (fun r => aged r && !rowStuck F root r) with
+  | some r => throw s!"[age] {showRel r.rel} is older than the maximum age and was kept"
+  | none => pure ()
+  let R' := R.filter (fun r => !aged r)
+  let keptDeletable := I'.filter (fun r => !rowStuck F root r)
+  -- least recently used first (ties in any order)
+  match R'.find? (fun r => keptDeletable.any (fun k => decide (k.atime < r.atime))) with
+  | some r => throw s!"[lru-order] {showRel r.rel} was removed although a less recently used file was kept"
+  | none => pure ()
+  match st.maxSize with
+  | none =>
+    if !R'.isEmpty then throw "[over-eviction] rows removed although no size limit is set and they are not too old"
+  | some m =>
+    if total ≤ m then
+      if !R'.isEmpty then throw s!"[over-eviction] total {total} ≤ max {m} but rows were removed that are not too old"
+    else
+      let excess := total - m
+      let sumR := (sumI R).toNat
+      -- minimal: some tie order makes the removed set a shortest covering prefix
+      if !R'.isEmpty then
+        let top := R.foldl (fun a r => max a r.atime) 0
+        if !(R.any (fun r => r.atime == top && decide (sumR - r.size.toNat < excess))) then
+          throw s!"[over-eviction] removed {sumR} bytes for an excess of {excess}: dropping the newest removed file would still cover it"
+      -- fits: the excess is covered by the removed rows plus undeletable rows that are at least as old
+      let minKept := keptDeletable.foldl (fun a r => min a r.atime) (2 ^ 64)
+      let stuckOld := (I'.filter (fun r => rowStuck F root r && decide (r.atime ≤ minKept)))
+      if sumR + (sumI stuckOld).toNat < excess then
+        throw s!"[fits] total after the pass {(sumI I').toNat} > max {m} although deletable files remain"
+  -- idempotence
+  if st.lastEvictOk && (!R.isEmpty || !D.isEmpty) then
+    throw "[not-idempotent] a pass directly following another removed something"
+  pure ()
+
+def isNotifier : Op → Bool
+  | .created .. | .accessed .. | .deleted .. => true
+  | _ => false
+
+def judgeStep (st : JSt) (op : Op) (o : Obs) : Except String JSt := do
+  if o.status ∉ ["ok", "panic", "nomgr", "bad"] then throw s!"[harness] status {o.status}"
+  let st' : JSt := { st with inv := o.inv, fs := o.fs, lastEvictOk := false }
+  if o.status = "nomgr" ∨ o.status = "bad" then
+    if o.inv != st.inv ∨ fsKeys o.fs != fsKeys st.fs then throw "[harness] rejected op changed the state"
+    return st'
+  match op with
+  | .mkfile _ | .mkdir _ | .symlink _ _ | .rm _ =>
+    if o.inv != st.inv then throw "[inventory-changed-without-notification]"
+    return st'
+  | .setMaxSize v => 
+    if o.inv != st.inv ∨ fsKeys o.fs != fsKeys st.fs then throw "[settings-changed-state]"
+    return { st' with maxSize := v }
+  | .setMaxAge v =>
+    if o.inv != st.inv ∨ fsKeys o.fs != fsKeys st.fs then throw "[settings-changed-state]"
+    return { st' with maxAge := v }
+  | .close =>
+    if o.status = "panic" then throw "[panic] finish() panicked"
+    if o.inv != st.inv ∨ fsKeys o.fs != fsKeys st.fs then throw "[close-changed-state]"
+    return { st' with root := none, poisonOk := false }
+  | .open_ root _ =>
+    if fsKeys o.fs != fsKeys st.fs then throw "[open-changed-disk]"
+    if st.inv.isSome ∧ o.inv != st.inv then throw "[restart-changed-inventory] re-opening the database changed the inventory"
+    return { st' with root := some (canonOrKeep o.fs root), maxSize := none, maxAge := none, poisonOk := false }
+  | .restart =>
+    if o.status = "panic" then throw "[panic] finish() panicked"
+    if fsKeys o.fs != fsKeys st.fs then throw "[restart-changed-disk]"
+    if o.inv != st.inv then throw "[restart-changed-inventory] restart changed the inventory"
+    return { st' with maxSize := none, maxAge := none, poisonOk := false }
+  | .created p _ t | .accessed p t =>
+    if fsKeys o.fs != fsKeys st.fs then throw "[notification-touched-disk]"
+    if o.status = "panic" then
+      if st.poisonOk then return st'
+      if t < 0 then
+        if o.inv != st.inv then throw "[rejected-call-changed-inventory]"
+        return { st' with poisonOk := true }
+      throw "[panic] a notification with valid arguments panicked"
+    -- light check of "calls for paths outside the managed directory are ignored"
+    match st.root, canonicalize st.fs p with
+    | some root, .ok q =>
+      if !isPrefix root q ∧ o.inv != st.inv then throw "[outside-root-recorded] a path outside the root changed the inventory"
+      return st'
+    | _, _ => return st'
+  | .deleted p =>
+    if fsKeys o.fs != fsKeys st.fs then throw "[notification-touched-disk]"
+    if o.status = "panic" then
+      if st.poisonOk then return st'
+      throw "[panic] on_file_deleted panicked"
+    match st.root, canonicalize st.fs p with
+    | some root, .ok q =>
+      if !isPrefix root q ∧ o.inv != st.inv then throw "[outside-root-recorded] a path outside the root changed the inventory"
+      return st'
+    | _, _ => return st'
+  | .evict | .evictAsync =>
+    let closed := match op with | .evictAsync => true | _ => false
+    let stN : JSt := if closed then { st' with root := none, poisonOk := false } else st'
+    match st.root, st.inv, o.inv with
+    | some root, some I, some I' =>
+      if o.status = "panic" then
+        if st.poisonOk then return stN
+        -- nothing outside the root may disappear even when the pass dies
+        match (fsKeys st.fs).find? (fun k => (o.fs.lookup k).isNone && !isPrefix root k) with
+        | some k => throw s!"[outside-root-deleted] {showPath k} was deleted by a pass that then panicked"
+        | none => pure ()
+        let invalidAge := match st.maxAge with | some a => decide (vnow < a) | none => false
+        if invalidAge then return { stN with poisonOk := !closed }
+        if I.any (fun r => decide (r.size < 0)) then return { stN with poisonOk := !closed }
+        match I.find? (fun r => rowEscapes st.fs root r) with
+        | some r => throw s!"[evict-panic-escaped-row] the pass panicked: row {showRel r.rel} now resolves outside the managed root (assert in to_absolute_path); the inventory mutex is poisoned"
+        | none => throw "[evict-panic] the eviction pass panicked"
+      else
+        match judgeEvict st root I I' st.fs o.fs with
+        | .error e => throw e
+        | .ok _ => return { stN with lastEvictOk := !closed }
+    | _, _, _ => throw "[harness] eviction without manager or database"
+
+def judge (ops impl : List String) : Bool × String :=
+  if impl.length ≠ ops.length then (false, "[harness] wrong number of output lines") else
+  let rec go (st : JSt) (ops impl : List String) (k : Nat) : Bool × String :=
+    match ops, impl with
+    | l :: ls, o :: os =>
+      match parseOp l with
+      | none => if o = "bad-op" then go st ls os (k + 1) else (false, "[harness] bad-op mismatch")
+      | some op =>
+        let links := match op with
+          | .symlink p t => (p, t) :: st.links
+          | _ => st.links
+        match parseObs links o with
+        | none => (false, s!"[harness] unparsable output line {k}: {o}")
+        | some obs =>
+          match judgeStep { st with links := links } op obs with
+          | .error e => (false, s!"{e} (op {k}: {l})")
+          | .ok st' => go st' ls os (k + 1)
+    | _, _ => (true, "ok")
+  go {} ops impl 0
 
 end C15
